@@ -502,10 +502,25 @@ func (c *c15Case) runV2(api string) {
 		if good {
 			c.okCover(api, lg, hasBudget)
 		}
+		for _, q := range c15Quotas(buf.Len()) {
+			qw := &c15Quota{quota: q}
+			n, err := carv2.TraverseV1(bg, &ls, root, c.sel, qw, opts...)
+			if err == nil {
+				t.ViolateD(api+"/failing-destination/returned-nil", c.detail(lg, map[string]any{"destination_accepts": q, "accepted": qw.n, "returned": n}),
+					"%s returned nil although the destination failed after %d of %d bytes", api, qw.n, buf.Len())
+			}
+			log.take()
+			t.Cover("failing-destination-probes")
+		}
 	case "v2.TraverseToFile":
 		dir := lab.TempDir("c15")
 		defer os.RemoveAll(dir)
 		p := filepath.Join(dir, "out.car")
+		if c.d.Seed%2 == 0 {
+			// the destination already holds a larger file (an earlier export): it must be replaced
+			mustWrite(p, bytes.Repeat([]byte{0xEE, 0x01, 0x00}, 30000))
+			t.Cover("traverse-to-file-over-existing-larger-file")
+		}
 		err := carv2.TraverseToFile(bg, &ls, root, c.sel, p, opts...)
 		lg := log.take()
 		if err != nil {
@@ -521,6 +536,29 @@ func (c *c15Case) runV2(api string) {
 			c.okCover(api, lg, hasBudget)
 		}
 	}
+}
+
+// c15Quota is a destination that accepts quota bytes and then fails.
+type c15Quota struct{ n, quota int }
+
+func (q *c15Quota) Write(p []byte) (int, error) {
+	if q.n+len(p) > q.quota {
+		k := q.quota - q.n
+		if k < 0 {
+			k = 0
+		}
+		q.n += k
+		return k, errors.New("injected: no space left on device")
+	}
+	q.n += len(p)
+	return len(p), nil
+}
+
+func c15Quotas(total int) []int {
+	if total < 2 {
+		return nil
+	}
+	return []int{total / 2, total - 1}
 }
 
 // checkCallbacks: oracle (d). Offset is taken to be the archive offset of the
@@ -628,6 +666,15 @@ func (c *c15Case) runRootSelective() {
 			if good {
 				c.okCover(api, lg, hasBudget)
 			}
+			for _, q := range c15Quotas(buf.Len()) {
+				qw := &c15Quota{quota: q}
+				if err := carv1.NewSelectiveCar(bg, store, dags, opts...).Write(qw); err == nil {
+					t.ViolateD(api+"/failing-destination/returned-nil", c.detail(lg, map[string]any{"destination_accepts": q, "accepted": qw.n}),
+						"Write returned nil although the destination failed after %d of %d bytes", qw.n, buf.Len())
+				}
+				log.take()
+				t.Cover("failing-destination-probes")
+			}
 		}
 	}
 	if want("root.SelectiveCar.Prepare+Dump") {
@@ -697,6 +744,17 @@ func (c *c15Case) runRootSelective() {
 		if good {
 			c.okCover("root.SelectiveCar.Prepare+Dump", lg, hasBudget)
 			t.Events(len(dumpLoads))
+		}
+		// a destination that fails before everything is out: Dump must say so (a nil return announces
+		// that Size() bytes were written)
+		for _, q := range c15Quotas(buf.Len()) {
+			qw := &c15Quota{quota: q}
+			if err := prep.Dump(bg, qw); err == nil {
+				t.ViolateD("root.SelectiveCar.Dump/failing-destination/returned-nil", c.detail(lg, map[string]any{"destination_accepts": q, "announced": prep.Size(), "accepted": qw.n}),
+					"Dump returned nil although the destination failed after %d of %d bytes", qw.n, prep.Size())
+			}
+			log.take()
+			t.Cover("failing-destination-probes")
 		}
 	}
 }
@@ -863,7 +921,7 @@ func init() {
 		},
 		Gen: genC15,
 		Run: runC15,
-		MinCover: map[string]int{"failed-traversal:count-checked": 20, 
+		MinCover: map[string]int{"failed-traversal:count-checked": 20,
 			"ok:v2.NewSelectiveWriter.WriteTo": 40, "ok:v2.TraverseV1": 40, "ok:v2.TraverseToFile": 40,
 			"ok:root.SelectiveCar.Write": 40, "ok:root.SelectiveCar.Prepare+Dump": 40, "ok:root.WriteCar": 40,
 			"dag:repeated-link": 30, "dag:shared-subtree": 30, "dag:mixed-codecs": 30,
